@@ -16,6 +16,14 @@
   proposed_fixes/D10-close-paused.diff applied (`stop()` wakes a paused thread, `run`
   re-tests `halting`).  The harness probes which variant the source under test follows.
 
+  `Cfg.fails` (by player index): played iterables that raise when asked for the sample after the
+  last one — equally: backend writes that raise after so many chunks.  At the granularity of this
+  system that is ONE step of the player: at `write` with no complete chunk left (`todo = []`, which
+  is `playChunks`: only the chunks completed before the exception) and `fail` set, the exception
+  leaves the loop of `run` through its `finally` clause and the thread goes on with its epilogue
+  (`finAcq`), as /repo does since dd9cc91.  Every invariant and liveness theorem of
+  `ALV.Lemmas.C17*` holds with it.
+
   Mathlib-free; executable.
 -/
 import ALV.Model.C08
@@ -108,11 +116,13 @@ structure Player where
   lk : Option Tid                -- `AudioThread.lock`
   go : Bool                      -- `AudioThread.go`
   halting : Bool                 -- `AudioThread.halting`
+  fail : Bool := false           -- the played iterable raises when asked for the sample after `audio`
   deriving Repr, Inhabited
 
 structure Cfg where
   wait : Bool
   fixed : Bool
+  fails : List Bool := []        -- by player index: the played iterables that raise after their samples
   deriving Repr, Inhabited
 
 structure State where
@@ -131,6 +141,12 @@ structure State where
 /-- `chunks(audio, size=cs, dfmt)`: `blocks(seq, size, padval=0.)` with hop = size, each block packed -/
 def chunksOf (cs : Nat) (audio : List Int) : List (List Int) :=
   ALV.C08.blocks cs cs 0 audio
+
+/-- what `chunks(audio, size=cs)` yields before it ends — or before the iterable raises: then only the
+    chunks that were completed (the first `|audio| / cs` ones; a partly filled chunk is lost with
+    the exception) -/
+def playChunks (cs : Nat) (audio : List Int) (fail : Bool) : List (List Int) :=
+  if fail then (chunksOf cs audio).take (audio.length / cs) else chunksOf cs audio
 
 def init (script : List Cmd) : State :=
   { mpc := .begin, script := script, players := [], threads := [], mlock := none, hlock := none,
@@ -154,7 +170,7 @@ def State.next (s : State) (e : Ev) : State :=
 def setP (s : State) (i : Nat) (p : Player) : State := { s with players := s.players.set i p }
 
 /-- the `for chunk in chunks(...)` header: next chunk or end of the loop -/
-def loopHead (p : Player) : PPc := if p.todo.isEmpty then .finAcq else .write
+def loopHead (p : Player) : PPc := if p.todo.isEmpty && !p.fail then .finAcq else .write
 
 def isDone (s : State) (i : Nat) : Bool :=
   match s.players[i]? with
@@ -180,10 +196,11 @@ def stepMain (cfg : Cfg) (s : State) : Option State :=
     if s.mlock.isSome then none else
     if s.finished then some { s with mlock := some .main, mpc := .pRaiseRel }
     else
-      let ch := chunksOf cs audio
+      let f := cfg.fails.getD s.players.length false
+      let ch := playChunks cs audio f
       let p : Player := { pc := .new, audio := audio, cs := cs, all := ch, todo := ch, written := [],
                           sst := .unopened,
-                          lk := none, go := false, halting := false }
+                          lk := none, go := false, halting := false, fail := f }
       some { s with mlock := some .main, players := s.players ++ [p], mpc := .pGoSet s.players.length }
   | .pRaiseRel => some ({ s with mlock := none }.next .playThreadError)
   | .pGoSet i =>
@@ -266,7 +283,10 @@ def stepPlayer (cfg : Cfg) (s : State) (i : Nat) : Option State :=
     | .begin => some (setP s i { p with pc := loopHead p })
     | .write =>
       match p.todo with
-      | [] => none
+      | [] =>
+        -- the chunk generator asks the iterable for a sample and the iterable raises: the
+        -- exception leaves the loop of `run` through its `finally` clause (the epilogue)
+        if p.fail then some (setP s i { p with pc := .finAcq }) else none
       | c :: rest =>
         some { setP s i { p with written := p.written ++ [c], todo := rest,
                                  pc := if cfg.fixed && p.halting then .stopStream else .isSet } with
